@@ -212,6 +212,10 @@ def run(pid, tier, replay_file=None):
                               f"{ob.get('parse')} {ob.get('strip')} {ob.get('np')}",
                               dict(state=st, observed=ob, tag=tag))
 
+    refs_cov = {}
+    if pid == "C20" and not replay_file:
+        import checks_refs
+        refs_cov = checks_refs.collect(rep, "C20", tier)
     # ---------------- evidence
     bfs = info.get("bfs", {})
     sim = info.get("sim", {})
@@ -263,6 +267,11 @@ def run(pid, tier, replay_file=None):
         drift_events_total=len(ev_index),
         model_switches="see spec/Elements.tla, spec/Parser.tla (DeepBool, PlaceholderBySource, ...)",
     )
+    if refs_cov:
+        coverage["reference_graphs"] = refs_cov
+        coverage["states"] += refs_cov["states"]
+        coverage["transitions"] += refs_cov["transitions"]
+        coverage["traces_validated_against_impl"] += refs_cov["traces_validated_against_impl"]
     return rep.finish(coverage, time.time() - t0,
                       assumptions=["A1 bounded exhaustiveness", "A3 regex family",
                                    "A4 binary-exact rationals", "A7 Draft6.tla is the reference"])
